@@ -106,6 +106,8 @@ pub struct SimState {
     pub log: Option<Vec<String>>,
     pub counters: Counters,
     pub session_open: bool,
+    /// tasks currently inside debug::log_start / log_finish
+    pub session_transition: Vec<usize>,
     pub seq_task: usize,
 }
 
@@ -134,6 +136,7 @@ impl SimState {
                 session_records: 0,
             },
             session_open: false,
+            session_transition: Vec::new(),
             seq_task: 0,
         }
     }
@@ -413,20 +416,15 @@ pub fn hook_callback(e: prqlc::verif_hooks::Event) {
 
 pub const INJECTED_PANIC_MSG: &str = "VERIF injected panic at log site";
 
-struct Sink;
-impl std::fmt::Write for Sink {
-    fn write_str(&mut self, _s: &str) -> std::fmt::Result {
-        Ok(())
-    }
-}
-
 pub struct SimLogger;
 static LOGGER: SimLogger = SimLogger;
 static REAL_LOGGER: prqlc::debug::MessageLogger = prqlc::debug::MessageLogger;
 
 impl log::Log for SimLogger {
-    fn enabled(&self, _m: &log::Metadata) -> bool {
-        true
+    /// Exactly what the CLI wires (`MessageLogger`): enabled while a debug session is open
+    /// and not suppressed. `log::log_enabled!` guards in the library see the real answer.
+    fn enabled(&self, m: &log::Metadata) -> bool {
+        log::Log::enabled(&REAL_LOGGER, m)
     }
 
     fn log(&self, record: &log::Record) {
@@ -434,6 +432,13 @@ impl log::Log for SimLogger {
         let (do_panic, do_yield, session, others_in_flight);
         {
             let mut st = state();
+            if st.session_transition.contains(&task) {
+                // a record emitted by log_start/log_finish themselves: the CLI's logger gets
+                // it like any other (and so does the real one here)
+                drop(st);
+                log::Log::log(&REAL_LOGGER, record);
+                return;
+            }
             if task >= st.tasks.len() || !st.tasks[task].in_call {
                 return;
             }
@@ -456,11 +461,9 @@ impl log::Log for SimLogger {
                 st.counters.session_records += 1;
             }
         }
-        // Arguments are always formatted, in every context (also the
-        // reference), so that formatting is not itself a context difference.
-        let _ = std::fmt::write(&mut Sink, *record.args());
         if session {
-            // What `prqlc compile --debug-log` wires: the real MessageLogger.
+            // What `prqlc compile --debug-log` wires: the real MessageLogger. It formats the
+            // arguments only while the session is enabled, as in the CLI.
             log::Log::log(&REAL_LOGGER, record);
         }
         if do_panic {
